@@ -11,14 +11,14 @@ pub fn meta() -> Meta {
     Meta {
         id: "C17",
         level: "exploration",
-        rule: "planted-SNP families through `ska build` + `ska lo` (CLI, --threads 1..4 chosen per case, hash seeds owned by the shim: 2 quick / 3 thorough): ancestors of length 10k+1 whose (k-1)-mers are unique on both strands; k in {7,9,15,21,31,33} (thorough: every odd k in 7..33); sites = every non-empty subset of the grid {3k, 5k, 7k+1} (spacing exactly 2k and 2k+1, margins 3k); allele assignments = every biallelic split for n=3,4,5 samples, every triallelic assignment for n=3 (thorough: n=4) and carrier patterns for n=6,10 (thorough: 8); sample orientations; without reference and (k>=15) with the ancestor as reference, the reference file laid out in one of four ways chosen per case (one line; lines of 60; lines of 70 with CRLF; header with description, lines of 50, no final newline); -m in {0, 0.1, 0.2}. Oracle without reference: the column multiset modulo whole-column complement equals the planted one. With reference (soundness): every VCF record lies at a planted site, REF is the ancestor base, every given genotype decodes to that sample's true base, pseudo-genomes have the ancestor's length and agree with each sample at every called position. Sequence-end family (k in {7,15,31}): a site exactly k-1, k, k+1, 2k-1 bases from either end is called; sites closer than k-1 are not called by the pinned tool (listed in known_findings.txt). Repeated-arms family (k in {9,15,21,31,33}): the same two arms around 2..4 different middle bases (every ambiguity code of 2..4 bases stored in every sample), a planted site inside the arm of each copy in turn plus a distant one. Well-formedness family outside the premise (SNP pairs at every distance 1..2k, SNP next to an indel, three alleles at adjacent sites, a sample lacking a region): equal sequence lengths, >= 2 distinct A/C/G/T per column, missing fraction <= m. Cases whose derived samples break (k-1)-mer uniqueness are trivial and not judged for completeness. Every 48th case is repeated through the dev-profile build of the CLI (arithmetic overflow checks on) and must get the same verdict.".into(),
+        rule: "planted-SNP families through `ska build` + `ska lo` (CLI, --threads 1..4 chosen per case, hash seeds owned by the shim: 2 quick / 3 thorough): ancestors of length 10k+1 whose (k-1)-mers are unique on both strands; k in {7,9,15,21,31,33} (thorough: every odd k in 7..33); sites = every non-empty subset of the grid {3k, 5k, 7k+1} (spacing exactly 2k and 2k+1, margins 3k); allele assignments = every biallelic split for n=3,4,5 samples, every triallelic assignment for n=3 (thorough: n=4) and carrier patterns for n=6,10 (thorough: 8); sample orientations; without reference and (k>=15) with the ancestor or (every second case) its reverse complement as reference, the reference file laid out in one of four ways chosen per case (one line; lines of 60; lines of 70 with CRLF; header with description, lines of 50, no final newline); -m in {0, 0.1, 0.2}. Oracle without reference: the column multiset modulo whole-column complement equals the planted one. With reference: the same completeness of the SNP alignment, and every VCF record lies at a planted site, REF is the ancestor base, every given genotype decodes to that sample's true base, pseudo-genomes have the ancestor's length and agree with each sample at every called position. Longer ancestors (30k; k in {15,21,31}, three full ancestors and four (thorough 24) more with fewer assignments; arrangements also mirrored; the reference given in both orientations) with a dense run of three sites 2k apart plus one or two distant sites, every biallelic assignment for four samples, with and without reference. Sequence-end family (k in {7,15,31}): a site exactly k-1, k, k+1, 2k-1 bases from either end is called; sites closer than k-1 are not called by the pinned tool (listed in known_findings.txt). Repeated-arms family (k in {9,15,21,31,33}): the same two arms around 2..4 different middle bases (every ambiguity code of 2..4 bases stored in every sample), a planted site inside the arm of each copy in turn plus a distant one. Well-formedness family outside the premise (SNP pairs at every distance 1..2k, SNP next to an indel, three alleles at adjacent sites, a sample lacking a region): equal sequence lengths, >= 2 distinct A/C/G/T per column, missing fraction <= m. Cases whose derived samples break (k-1)-mer uniqueness are trivial and not judged for completeness. Every 48th case is repeated through the dev-profile build of the CLI (arithmetic overflow checks on) and must get the same verdict.".into(),
         assumptions: vec!["hash-seed space is a declared finite set (2/3 seeds); thread counts are C11's".into(), "release-profile arithmetic (DESIGN §2)".into()],
         exhaustive_when_uncapped: true,
     }
 }
 
 fn case_json(c: &SnpCase, with_ref: bool, m: &str, seed: u64) -> Value {
-    json!({"k": c.k, "ancestor": String::from_utf8_lossy(&c.ancestor), "sites": c.sites, "alleles": c.alleles, "flip": c.flip, "with_ref": with_ref, "m": m, "hash_seed": seed})
+    json!({"k": c.k, "ancestor": String::from_utf8_lossy(&c.ancestor), "sites": c.sites, "alleles": c.alleles, "flip": c.flip, "with_ref": with_ref, "m": m, "hash_seed": seed, "ref_orient": lo::REF_ORIENT.load(std::sync::atomic::Ordering::Relaxed)})
 }
 
 pub fn well_formed(o: &lo::LoOut, n: usize, m: f32) -> Result<(), String> {
@@ -59,7 +59,15 @@ pub fn check(c: &SnpCase, with_ref: bool, m: &str, seed: u64, dir: &str) -> Resu
     lo::REF_DRESS.store(dress, std::sync::atomic::Ordering::Relaxed);
     // thread count 1..4 derived from the case too (the brief's quantifier goes to 8; C11 sweeps 1..16)
     let threads = 1 + (crate::explore::hash64(&(&c.alleles, &c.sites, c.k)) % 4) as usize;
-    let o = lo::run_lo(dir, c.k, &samples, if with_ref { Some(&c.ancestor) } else { None }, &["-m", m], threads, Some(seed));
+    // the reference is the ancestor or (every second case) its reverse complement: coordinates and bases mirror
+    let ref_rc = with_ref
+        && match lo::REF_ORIENT.load(std::sync::atomic::Ordering::Relaxed) {
+            1 => false,
+            2 => true,
+            _ => crate::explore::hash64(&(&c.sites, &c.flip, c.k)) % 2 == 1,
+        };
+    let reference: Vec<u8> = if ref_rc { rc_str(&c.ancestor) } else { c.ancestor.clone() };
+    let o = lo::run_lo(dir, c.k, &samples, if with_ref { Some(&reference) } else { None }, &["-m", m], threads, Some(seed));
     lo::REF_DRESS.store(0, std::sync::atomic::Ordering::Relaxed);
     let o = o?;
     let premise = c.premise();
@@ -79,7 +87,16 @@ pub fn check(c: &SnpCase, with_ref: bool, m: &str, seed: u64, dir: &str) -> Resu
         }
         return Ok(true);
     }
-    // reference mode: soundness
+    // reference mode: the SNP alignment is as complete as without a reference ("exactly one column per substituted
+    // site" is said of `ska lo` as such) ...
+    {
+        let got = lo::snp_columns(&o)?;
+        if got != planted {
+            let show = |v: &Vec<Vec<u8>>| v.iter().map(|x| String::from_utf8_lossy(x).to_string()).collect::<Vec<_>>().join(" ");
+            return Err(format!("with a reference: SNP columns [{}] but the planted sites give [{}]", show(&got), show(&planted)));
+        }
+    }
+    // ... and every record is sound
     let vcf = o.snps_vcf.clone().ok_or("no SNP VCF written in reference mode")?;
     let (_, pseudo) = o.pseudo.clone().ok_or("no pseudo-genomes written in reference mode")?;
     if pseudo.len() != n || pseudo.iter().any(|p| p.len() != c.ancestor.len()) {
@@ -95,20 +112,26 @@ pub fn check(c: &SnpCase, with_ref: bool, m: &str, seed: u64, dir: &str) -> Resu
             return Err(format!("short VCF record {l:?}"));
         }
         let pos: usize = f[1].parse().map_err(|_| "POS")?;
-        let p0 = pos - 1;
-        if !c.sites.contains(&p0) {
-            return Err(format!("VCF record at position {pos} which is not a planted site {:?} (+1)", c.sites));
+        if pos == 0 || pos > reference.len() {
+            return Err(format!("VCF position {pos} outside the reference"));
         }
-        if !called.insert(p0) {
+        let pr = pos - 1;
+        // the same site in ancestor coordinates
+        let p0 = if ref_rc { reference.len() - 1 - pr } else { pr };
+        let orient = |b: u8| if ref_rc { comp(b) } else { b };
+        if !c.sites.contains(&p0) {
+            return Err(format!("VCF record at position {pos} (reference {}) which is not a planted site {:?} (+1, ancestor coordinates)", if ref_rc { "= reverse complement of the ancestor" } else { "= ancestor" }, c.sites));
+        }
+        if !called.insert(pr) {
             return Err(format!("two VCF records at position {pos}"));
         }
-        if f[3].as_bytes() != [c.ancestor[p0]] {
-            return Err(format!("REF {} at {pos}, the reference base is {}", f[3], c.ancestor[p0] as char));
+        if f[3].as_bytes() != [reference[pr]] {
+            return Err(format!("REF {} at {pos}, the reference base is {}", f[3], reference[pr] as char));
         }
         let mut alleles: Vec<&str> = vec![f[3]];
         alleles.extend(f[4].split(',').filter(|a| !a.is_empty() && *a != "."));
         for i in 0..n {
-            let truth = c.sample_seq(i)[p0];
+            let truth = orient(c.sample_seq(i)[p0]);
             let g = f[9 + i];
             if g != "." {
                 let ai: usize = g.parse().map_err(|_| format!("GT {g}"))?;
@@ -117,7 +140,7 @@ pub fn check(c: &SnpCase, with_ref: bool, m: &str, seed: u64, dir: &str) -> Resu
                     return Err(format!("sample {i} genotyped {a} at {pos}, its true base is {}", truth as char));
                 }
             }
-            let pg = pseudo[i][p0];
+            let pg = pseudo[i][pr];
             if matches!(pg, b'A' | b'C' | b'G' | b'T') && pg != truth {
                 return Err(format!("pseudo-genome of sample {i} has {} at called position {pos}, the sample has {}", pg as char, truth as char));
             }
@@ -126,7 +149,7 @@ pub fn check(c: &SnpCase, with_ref: bool, m: &str, seed: u64, dir: &str) -> Resu
     // away from called positions the pseudo-genome is the reference
     for (i, p) in pseudo.iter().enumerate() {
         for (q, b) in p.iter().enumerate() {
-            if !called.contains(&q) && *b != c.ancestor[q] {
+            if !called.contains(&q) && *b != reference[q] {
                 return Err(format!("pseudo-genome of sample {i} differs from the reference at uncalled position {}", q + 1));
             }
         }
@@ -145,7 +168,9 @@ pub fn replay(v: &Value) -> Result<Option<String>, String> {
         alleles: v["alleles"].as_array().ok_or("alleles")?.iter().map(|a| a.as_array().unwrap().iter().map(|x| x.as_u64().unwrap() as u8).collect()).collect(),
         flip: v["flip"].as_array().ok_or("flip")?.iter().map(|x| x.as_bool().unwrap()).collect(),
     };
+    lo::REF_ORIENT.store(v["ref_orient"].as_u64().unwrap_or(0) as usize, std::sync::atomic::Ordering::Relaxed);
     let r = check(&c, v["with_ref"].as_bool().unwrap_or(false), v["m"].as_str().unwrap_or("0.1"), v["hash_seed"].as_u64().unwrap_or(0), &scratch::path("c17"));
+    lo::REF_ORIENT.store(0, std::sync::atomic::Ordering::Relaxed);
     match r {
         Err(e) if e.starts_with("MACHINERY") => Err(e),
         Err(e) => Ok(Some(e)),
@@ -268,6 +293,81 @@ pub fn run(ctx: &Ctx, rep: &mut Report) {
         rep.completed.push(format!("planted SNPs k={k}"));
     }
     rep.sample(json!({"k": 15, "sites": [45, 75], "alleles": [[0, 1, 1], [1, 0, 1]], "flip": [false, true, false], "with_ref": true, "m": "0.1", "oracle": "every VCF record at a planted site with REF = ancestor base and true genotypes; pseudo-genomes agree"}));
+    // longer ancestors with four or five sites: a dense run of three sites exactly 2k apart plus one or two sites far
+    // away (before or behind it), every biallelic assignment for four samples, reference-free and (reference in either
+    // orientation) with reference
+    if !rep.capped {
+        let mut members: Vec<(usize, u64)> = vec![(15, 0), (21, 0), (31, 0)];
+        for m in 1..=(if thorough { 24u64 } else { 4 }) {
+            members.push(([21usize, 15, 31][(m % 3) as usize], m));
+        }
+        for (k, member) in members {
+            // several ancestors per k: which strand copy of a group wins a tie depends on the sequence
+            let anc = lo::ancestor(30 * k, k, ctx.seed + 24 + 7 * member);
+            let asg = assignments(4, false);
+            let mut pending_json: Option<Value> = None;
+            // every arrangement also mirrored (site p -> L-1-p): which strand copy of a group wins a tie depends on the
+            // sequence, and the mirrored arrangement meets the other outcome
+            let base_sets: Vec<Vec<usize>> = vec![vec![3 * k, 5 * k, 7 * k, 15 * k], vec![3 * k, 5 * k, 7 * k, 15 * k, 19 * k + 3], vec![3 * k, 11 * k, 13 * k, 15 * k], vec![4 * k, 6 * k + 1, 8 * k + 2, 13 * k, 21 * k], vec![2 * k, 4 * k, 6 * k, 18 * k - 2, 25 * k + 1]];
+            let mut site_sets: Vec<Vec<usize>> = Vec::new();
+            for (bi, b) in base_sets.iter().enumerate() {
+                site_sets.push(b.clone());
+                if thorough || (bi + member as usize) % 3 == 0 {
+                    let mut m: Vec<usize> = b.iter().map(|p| anc.len() - 1 - p).collect();
+                    m.sort();
+                    site_sets.push(m);
+                }
+            }
+            for sites in site_sets {
+                for (ai, _) in asg.iter().enumerate() {
+                    if member > 0 && ai % 5 != 0 {
+                        continue;
+                    }
+                    for flip in [vec![false; 4], vec![false, true, true, false]] {
+                        if member > 0 && flip[1] {
+                            continue;
+                        }
+                        idx += 1;
+                        if !ctx.mine(idx) {
+                            continue;
+                        }
+                        let alleles: Vec<Vec<u8>> = (0..sites.len()).map(|j| asg[(ai + j * 3) % asg.len()].clone()).collect();
+                        let c = SnpCase { k, ancestor: anc.clone(), sites: sites.clone(), alleles, flip: flip.clone() };
+                        // reference-free, reference = ancestor, reference = its reverse complement
+                        for (with_ref, orient) in [(false, 0usize), (true, 1), (true, 2)] {
+                            if member > 0 && !with_ref {
+                                continue;
+                            }
+                            rep.evaluations += 1;
+                            lo::REF_ORIENT.store(orient, std::sync::atomic::Ordering::Relaxed);
+                            let verdict = check(&c, with_ref, "0.1", ctx.seed, &dir);
+                            let verdict = verdict.map_err(|e| (e, case_json(&c, with_ref, "0.1", ctx.seed)));
+                            lo::REF_ORIENT.store(0, std::sync::atomic::Ordering::Relaxed);
+                            match verdict.map_err(|(e, j)| { pending_json = Some(j); e }) {
+                                Ok(true) => {
+                                    rep.nontrivial += 1;
+                                    rep.corner("dense_run_plus_distant_sites");
+                                    rep.outcome(&(c.planted_columns(), with_ref, k));
+                                }
+                                Ok(false) => rep.corner("premise_not_met"),
+                                Err(e) if e.starts_with("MACHINERY") => rep.machinery(e),
+                                Err(e) => {
+                                    let j = pending_json.take().unwrap_or_else(|| case_json(&c, with_ref, "0.1", ctx.seed));
+                                    rep.violate(format!("dense+distant k={k} member={member} sites={sites:?} alleles={:?} flip={:?} ref={with_ref} orient={orient}", c.alleles, c.flip), format!("k={k} sites={sites:?} reference {}: {e}", ["none", "= ancestor", "= reverse complement of the ancestor"][orient]), j);
+                                }
+                            }
+                        }
+                        if ctx.expired() {
+                            rep.capped = true;
+                        }
+                    }
+                }
+            }
+        }
+        if !rep.capped {
+            rep.completed.push("dense run plus distant sites".into());
+        }
+    }
     // sites near the sequence ends. The statement sets no margin; `ska lo` needs k-1 bases of context on both sides of a
     // site (a bubble is anchored by a (k-1)-mer on each side). Distances k-1, k, k+1, 2k-1 from either end must be
     // called; a site closer than k-1 to an end is not called by the pinned tool — reported under its own key, which
